@@ -2,7 +2,7 @@
 # Regenerates harness/go.mod and go.sum from /repo's go.mod so that module resolution
 # picks exactly the versions /repo builds with (anything else cannot be fetched offline).
 set -e
-H=/verif/harness
+H=$(cd "$(dirname "${BASH_SOURCE[0]}")/.." && pwd)/harness
 TMP=$(mktemp)
 {
   echo "module verif/harness"
